@@ -1684,6 +1684,11 @@ func TestVerifReplay(t *testing.T) {
 	var sample []string
 	for _, toks := range cases {
 		expr := strings.Join(toks, " ")
+		// with automatic variables on (the default), setting the expression also creates its variables
+		func() {
+			defer func() { if r := recover(); r != nil { t.Errorf("%q: SetExpression with automatic variables panicked: %v", expr, r); bad++ } }()
+			calculator.NewExpressionCalculator().SetExpression(expr)
+		}()
 		c := calculator.NewExpressionCalculator()
 		c.SetAutoVariables(false)
 		var err error
